@@ -5,7 +5,7 @@ Lemmas about the local write path (`Model/LocalWrite.lean`), used by C01 and C12
 
 * `Authorised`: what the right check of one change establishes (own-rows / all-rows right at the date of the
   operation, in the room the row enters and in the room it leaves);
-* `validateChange_authorised`, `validateAll_authorised`: an accepted mutation (intended behaviour) has checked
+* `validateChange_authorised`, `validateList_authorised`: an accepted mutation (intended behaviour) has checked
   every change that writes a row;
 * `applyAll_rows`, `applyAll_edges_*`: what the write touches is what the changes say;
 * the shape of planned changes (`plan_*`).
@@ -65,7 +65,8 @@ theorem validateList_ok {df : Defects} {rooms : List Room} {caller : Key} {now :
     {l : List (Change × List EdgeTomb)} (h : validateList df rooms caller now cs = .ok l) :
     l.map (·.1) = cs ∧
     ∀ ct ∈ l, (ct.1.node = none → ct.2 = []) ∧
-      (ct.1.node ≠ none → validateChange df rooms caller now ct.1 = .ok ct.2) := by
+      (ct.1.node ≠ none → (df.subNodesSkipped && ct.1.shadowed) = false →
+        validateChange df rooms caller now ct.1 = .ok ct.2) := by
   induction cs generalizing l with
   | nil => simp only [validateList] at h; cases h; simp
   | cons c t ih =>
@@ -84,58 +85,35 @@ theorem validateList_ok {df : Defects} {rooms : List Room} {caller : Key} {now :
         · simp only
           split at hone
           · rename_i hn; cases hone; exact ⟨fun _ => rfl, fun hne => absurd hn hne⟩
-          · rename_i n hn; exact ⟨(fun e => by rw [hn] at e; cases e), fun _ => hone⟩
+          · rename_i n hn
+            refine ⟨(fun e => by rw [hn] at e; cases e), fun _ hs => ?_⟩
+            rw [hs] at hone
+            simpa using hone
         · exact hall ct hct
 
-/-- **every change that writes a row was checked** (intended behaviour, or the code as it is when the entity's
-    own row changes or no sub-entity row changes, and no row changes room) -/
-theorem validateAll_authorised {df : Defects} {rooms : List Room} {caller : Key} {now : Int} {top : Change}
-    {subs : List Change} {l : List (Change × List EdgeTomb)}
-    (hskip : df.subNodesSkipped = false ∨ top.node ≠ none ∨ ∀ c ∈ subs, c.node = none)
-    (hmove : df.oldRoomLookup = false ∨ ∀ c ∈ top :: subs, NoMove c)
-    (h : validateAll df rooms caller now top subs = .ok l) :
-    l.map (·.1) = top :: subs ∧ ∀ ct ∈ l, ct.1.node ≠ none → Authorised rooms caller now ct.1 := by
-  have hm : ∀ c ∈ top :: subs, df.oldRoomLookup = false ∨ NoMove c := by
-    intro c hc
+/-- **every change that writes a row was checked** (intended behaviour, or the code as it is when no changed row
+    lies below an unchanged one in the tree, and no row changes room) -/
+theorem validateList_authorised {df : Defects} {rooms : List Room} {caller : Key} {now : Int}
+    {cs : List Change} {l : List (Change × List EdgeTomb)}
+    (hskip : df.subNodesSkipped = false ∨ ∀ c ∈ cs, c.shadowed = true → c.node = none)
+    (hmove : df.oldRoomLookup = false ∨ ∀ c ∈ cs, NoMove c)
+    (h : validateList df rooms caller now cs = .ok l) :
+    l.map (·.1) = cs ∧ ∀ ct ∈ l, ct.1.node ≠ none → Authorised rooms caller now ct.1 := by
+  obtain ⟨hmap, hall⟩ := validateList_ok h
+  refine ⟨hmap, ?_⟩
+  intro ct hct hne
+  have hcin : ct.1 ∈ cs := by rw [← hmap]; exact List.mem_map.mpr ⟨ct, hct, rfl⟩
+  have hm : df.oldRoomLookup = false ∨ NoMove ct.1 := by
     rcases hmove with h1 | h1
     · exact Or.inl h1
-    · exact Or.inr (h1 c hc)
-  unfold validateAll at h
-  split at h
-  · rename_i htop
-    split at h
-    · rename_i hs
-      cases h
-      refine ⟨?_, ?_⟩
-      · simp only [List.map_cons, List.map_map]
-        congr 1
-        conv => rhs; rw [← List.map_id subs]
-        apply List.map_congr_left
-        intro c _; rfl
-      intro ct hct hne
-      rcases List.mem_cons.mp hct with rfl | hct
-      · exact absurd htop hne
-      · obtain ⟨c, hc, rfl⟩ := List.mem_map.mp hct
-        rcases hskip with h1 | h1 | h1
-        · rw [hs] at h1; cases h1
-        · exact absurd htop h1
-        · exact absurd (h1 c hc) hne
-    · split at h
-      · cases h
-      · rename_i l' hl
-        cases h
-        obtain ⟨hmap, hall⟩ := validateList_ok hl
-        refine ⟨by simp [hmap], ?_⟩
-        intro ct hct hne
-        rcases List.mem_cons.mp hct with rfl | hct
-        · exact absurd htop hne
-        · have hcin : ct.1 ∈ subs := by rw [← hmap]; exact List.mem_map.mpr ⟨ct, hct, rfl⟩
-          exact validateChange_authorised (hm ct.1 (List.mem_cons_of_mem _ hcin)) ((hall ct hct).2 hne)
-  · obtain ⟨hmap, hall⟩ := validateList_ok h
-    refine ⟨hmap, ?_⟩
-    intro ct hct hne
-    have hcin : ct.1 ∈ top :: subs := by rw [← hmap]; exact List.mem_map.mpr ⟨ct, hct, rfl⟩
-    exact validateChange_authorised (hm ct.1 hcin) ((hall ct hct).2 hne)
+    · exact Or.inr (h1 ct.1 hcin)
+  have hs : (df.subNodesSkipped && ct.1.shadowed) = false := by
+    rcases hskip with h1 | h1
+    · simp [h1]
+    · cases hsh : ct.1.shadowed with
+      | false => simp
+      | true => exact absurd (h1 ct.1 hcin hsh) hne
+  exact validateChange_authorised hm ((hall ct hct).2 hne hs)
 
 /-! ### what the write touches -/
 
@@ -253,27 +231,94 @@ structure Planned (db : Db) (c : Change) : Prop where
   quiet : c.node = none → c.edgeDels = [] ∧ c.edgeIns = []
   src : ∀ n, c.node = some n → (∀ e ∈ c.edgeIns, e.src = n.id) ∧ (∀ e ∈ c.edgeDels, e.src = n.id)
 
-theorem planLeaf_planned {db : Db} {now : Int} {pr : Option Id} {l : Leaf} {c : Change}
-    (h : planLeaf db now pr l = .ok c) : Planned db c := by
-  unfold planLeaf at h
+theorem refChanges_src {db : Db} {now : Int} {handle : Nat} {sh : Shape} :
+    (∀ e ∈ (refChanges db now handle sh).2, e.src = handle) ∧ (∀ e ∈ (refChanges db now handle sh).1, e.src = handle) := by
+  cases sh with
+  | none => exact ⟨(by intro e he; cases he), (by intro e he; cases he)⟩
+  | arr label dests =>
+    refine ⟨?_, (by intro e he; cases he)⟩
+    intro e he
+    simp only [refChanges] at he
+    obtain ⟨c, _, rfl⟩ := List.mem_map.mp he
+    rfl
+  | ent label dest =>
+    simp only [refChanges]
+    split
+    · exact ⟨(by intro e he; cases he), (by intro e he; cases he)⟩
+    · refine ⟨(by intro e he; simp at he; subst he; rfl), ?_⟩
+      intro e he
+      have := (List.mem_filter.mp he).2
+      simp only [Bool.and_eq_true, decide_eq_true_eq] at this
+      exact this.1
+  | null label =>
+    refine ⟨(by intro e he; cases he), ?_⟩
+    intro e he
+    have := (List.mem_filter.mp he).2
+    simp only [Bool.and_eq_true, decide_eq_true_eq] at this
+    exact this.1
+
+/-- the references a field adds are new: none of them is stored -/
+theorem refChanges_ins_fresh {db : Db} {now : Int} {handle : Nat} {sh : Shape} :
+    ∀ e ∈ (refChanges db now handle sh).2, db.edgeExists e.src e.label e.dest = false := by
+  cases sh with
+  | none => intro e he; cases he
+  | arr label dests =>
+    intro e he
+    simp only [refChanges] at he
+    obtain ⟨c, hc, rfl⟩ := List.mem_map.mp he
+    have := (List.mem_filter.mp hc).2
+    simpa using this
+  | ent label dest =>
+    simp only [refChanges]
+    split
+    · intro e he; cases he
+    · rename_i hx
+      intro e he
+      simp at he; subst he
+      simpa using hx
+  | null label => intro e he; cases he
+
+/-- the references a field removes are stored references -/
+theorem refChanges_dels_stored {db : Db} {now : Int} {handle : Nat} {sh : Shape} :
+    ∀ e ∈ (refChanges db now handle sh).1, e ∈ db.edges := by
+  cases sh with
+  | none => intro e he; cases he
+  | arr label dests => intro e he; cases he
+  | ent label dest =>
+    simp only [refChanges]
+    split
+    · intro e he; cases he
+    · intro e he; exact (List.mem_filter.mp he).1
+  | null label => intro e he; exact (List.mem_filter.mp he).1
+
+theorem planItem_planned {db : Db} {now : Int} {it : Item} {c : Change}
+    (h : planItem db now it = .ok c) : Planned db c := by
+  unfold planItem at h
   simp only at h
   split at h
   · cases h
   · rename_i roomId old node hp
     cases h
-    obtain ⟨h1, h2, _, _⟩ := planNode_shape hp
-    refine ⟨?_, ?_, fun _ _ _ => trivial, fun _ => ⟨rfl, rfl⟩, ?_⟩
+    obtain ⟨h1, h2, _, h4⟩ := planNode_shape hp
+    refine ⟨?_, ?_, fun _ _ _ => trivial, ?_, ?_⟩
     · intro n hn; exact ⟨(h1 n hn).2.1, (h1 n hn).2.2⟩
     · intro o ho n hn
       rw [(h1 n hn).1]; exact (h2 o ho).2
-    · intro n _; exact ⟨(by intro e he; cases he), (by intro e he; cases he)⟩
+    · intro hn
+      simp only at hn
+      by_cases ht : (!(refChanges db now it.handle it.shape).1.isEmpty || !(refChanges db now it.handle it.shape).2.isEmpty) = true
+      · exact absurd hn (h4 ht)
+      · simp only [Bool.or_eq_true, Bool.not_eq_true', not_or, Bool.not_eq_false] at ht
+        exact ⟨List.isEmpty_iff.mp ht.1, List.isEmpty_iff.mp ht.2⟩
+    · intro n hn
+      rw [(h1 n hn).1]; exact refChanges_src
 
-theorem planLeaves_planned {db : Db} {now : Int} {pr : Option Id} {ls : List Leaf} {cs : List Change}
-    (h : planLeaves db now pr ls = .ok cs) : ∀ c ∈ cs, Planned db c := by
-  induction ls generalizing cs with
-  | nil => simp only [planLeaves] at h; cases h; intro c hc; cases hc
-  | cons l t ih =>
-    simp only [planLeaves] at h
+theorem planItems_mem {db : Db} {now : Int} {its : List Item} {cs : List Change}
+    (h : planItems db now its = .ok cs) : ∀ c ∈ cs, ∃ it ∈ its, planItem db now it = .ok c := by
+  induction its generalizing cs with
+  | nil => simp only [planItems] at h; cases h; intro c hc; cases hc
+  | cons it t ih =>
+    simp only [planItems] at h
     split at h
     · cases h
     · rename_i c hc
@@ -283,77 +328,54 @@ theorem planLeaves_planned {db : Db} {now : Int} {pr : Option Id} {ls : List Lea
         cases h
         intro x hx
         rcases List.mem_cons.mp hx with rfl | hx
-        · exact planLeaf_planned hc
-        · exact ih hrest x hx
+        · exact ⟨it, List.mem_cons_self .., hc⟩
+        · obtain ⟨it', hit', hp⟩ := ih hrest x hx
+          exact ⟨it', List.mem_cons_of_mem _ hit', hp⟩
 
-theorem plan_planned {db : Db} {now : Int} {m : Mut} {top : Change} {subs : List Change}
-    (h : plan db now m = .ok (top, subs)) : ∀ c ∈ top :: subs, Planned db c := by
-  unfold plan at h
-  simp only at h
-  split at h
-  · cases h
-  · split at h
+/-- every change of the plan of a mutation tree — whatever its depth — has the shape `get_mutate_query` gives it -/
+theorem plan_planned {db : Db} {now : Int} {m : Mut} {cs : List Change}
+    (h : plan db now m = .ok cs) : ∀ c ∈ cs, Planned db c := by
+  intro c hc
+  obtain ⟨it, _, hp⟩ := planItems_mem h c hc
+  exact planItem_planned hp
+
+/-- the references a planned change adds are not stored, those it removes are -/
+theorem plan_refs {db : Db} {now : Int} {m : Mut} {cs : List Change}
+    (h : plan db now m = .ok cs) : ∀ c ∈ cs,
+      (∀ e ∈ c.edgeIns, db.edgeExists e.src e.label e.dest = false) ∧ (∀ e ∈ c.edgeDels, e ∈ db.edges) := by
+  intro c hc
+  obtain ⟨it, _, hp⟩ := planItems_mem h c hc
+  unfold planItem at hp
+  simp only at hp
+  split at hp
+  · cases hp
+  · cases hp
+    exact ⟨refChanges_ins_fresh, refChanges_dels_stored⟩
+
+/-- the mutated entity itself (the root of the tree) is the first change of the plan and has no ancestor -/
+theorem plan_root {db : Db} {now : Int} {m : Mut} {cs : List Change}
+    (h : plan db now m = .ok cs) : ∃ top rest, cs = top :: rest ∧ top.shadowed = false ∧ top.entity = m.entity := by
+  cases m with
+  | mk handle isNew entity room val field =>
+    unfold plan at h
+    simp only [flatten, planItems] at h
+    split at h
     · cases h
-    · rename_i cs dels ins hsubs
+    · rename_i c hc
       split at h
       · cases h
-      · rename_i roomId old node hp
-        simp only [Except.ok.injEq, Prod.mk.injEq] at h
-        obtain ⟨rfl, rfl⟩ := h
-        obtain ⟨h1, h2, _, h4⟩ := planNode_shape hp
-        -- the sub-entities
-        have hsubsP : ∀ c ∈ cs, Planned db c := by
-          split at hsubs
-          · cases hsubs; intro c hc; cases hc
-          · split at hsubs
-            · cases hsubs
-            · rename_i cs' hl; cases hsubs; exact planLeaves_planned hl
-          · split at hsubs
-            · cases hsubs
-            · rename_i c hl
-              split at hsubs <;> (cases hsubs; intro x hx; simp at hx; subst hx; exact planLeaf_planned hl)
-          · cases hsubs; intro c hc; cases hc
-        -- the references are stored at the mutated row
-        have hsrc : (∀ e ∈ ins, e.src = m.handle) ∧ (∀ e ∈ dels, e.src = m.handle) := by
-          split at hsubs
-          · cases hsubs; exact ⟨(by intro e he; cases he), (by intro e he; cases he)⟩
-          · split at hsubs
-            · cases hsubs
-            · cases hsubs
-              refine ⟨?_, (by intro e he; cases he)⟩
-              intro e he
-              obtain ⟨c, _, rfl⟩ := List.mem_map.mp he
-              rfl
-          · split at hsubs
-            · cases hsubs
-            · split at hsubs
-              · cases hsubs; exact ⟨(by intro e he; cases he), (by intro e he; cases he)⟩
-              · cases hsubs
-                refine ⟨(by intro e he; simp at he; subst he; rfl), ?_⟩
-                intro e he
-                have := (List.mem_filter.mp he).2
-                simp only [Bool.and_eq_true, decide_eq_true_eq] at this
-                exact this.1
-          · cases hsubs
-            refine ⟨(by intro e he; cases he), ?_⟩
-            intro e he
-            have := (List.mem_filter.mp he).2
-            simp only [Bool.and_eq_true, decide_eq_true_eq] at this
-            exact this.1
-        intro c hc
-        rcases List.mem_cons.mp hc with rfl | hc
-        · refine ⟨?_, ?_, fun _ _ _ => trivial, ?_, ?_⟩
-          · intro n hn; exact ⟨(h1 n hn).2.1, (h1 n hn).2.2⟩
-          · intro o ho n hn
-            rw [(h1 n hn).1]; exact (h2 o ho).2
-          · intro hn
-            simp only at hn
-            by_cases ht : (!dels.isEmpty || !ins.isEmpty) = true
-            · exact absurd hn (h4 ht)
-            · simp only [Bool.or_eq_true, Bool.not_eq_true', not_or, Bool.not_eq_false] at ht
-              exact ⟨List.isEmpty_iff.mp ht.1, List.isEmpty_iff.mp ht.2⟩
-          · intro n hn
-            rw [(h1 n hn).1]; exact hsrc
-        · exact hsubsP c hc
+      · rename_i rest _
+        cases h
+        refine ⟨c, rest, rfl, ?_, ?_⟩
+        · unfold planItem at hc
+          simp only at hc
+          split at hc
+          · cases hc
+          · cases hc; rfl
+        · unfold planItem at hc
+          simp only at hc
+          split at hc
+          · cases hc
+          · cases hc; rfl
 
 end Discret.LocalWrite
